@@ -52,6 +52,18 @@ class CodeBlock:
     hash_value: int
 
 
+
+def _sql_text(value: str | None) -> str | None:
+    """Make a string bindable by SQLite.
+
+    File names that are not valid UTF-8 and string literals such as "\\ud800" carry lone
+    surrogates, which sqlite3 refuses to encode (UnicodeEncodeError); they are stored escaped.
+    """
+    if value is None:
+        return None
+    return value.encode("utf-8", errors="backslashreplace").decode("utf-8")
+
+
 class DRYCache:
     """SQLite-backed storage for duplicate detection."""
 
@@ -139,7 +151,7 @@ class DRYCache:
 
         self.db.execute(
             "INSERT OR REPLACE INTO files (file_path, mtime, hash_count) VALUES (?, ?, ?)",
-            (str(file_path), mtime, len(blocks)),
+            (_sql_text(str(file_path)), mtime, len(blocks)),
         )
 
         # Insert code blocks
@@ -149,11 +161,11 @@ class DRYCache:
                    (file_path, hash_value, start_line, end_line, snippet)
                    VALUES (?, ?, ?, ?, ?)""",
                 (
-                    str(file_path),
+                    _sql_text(str(file_path)),
                     block.hash_value,
                     block.start_line,
                     block.end_line,
-                    block.snippet,
+                    _sql_text(block.snippet),
                 ),
             )
 
@@ -212,10 +224,10 @@ class DRYCache:
                    (file_path, name, line_number, value)
                    VALUES (?, ?, ?, ?)""",
                 (
-                    str(file_path),
-                    const.name,
+                    _sql_text(str(file_path)),
+                    _sql_text(const.name),
                     const.line_number,
-                    const.value,
+                    _sql_text(const.value) if isinstance(const.value, str) else const.value,
                 ),
             )
 
